@@ -63,6 +63,98 @@ fn policy_for(rng: &mut Rng, i: usize) -> (Mode, String) {
     (Mode::Sched { policy: p, clock: ClockSteps { jumps: rng.chance(1, 5) }, step_cap: 8000 }, name)
 }
 
+/// A directory with thousands of distinct sub-directories: backup, check, prune plan + prune and copy
+/// must all terminate (queues between the tree loader threads and their consumer must not form a cycle
+/// that fills up) and the snapshot must read back.
+fn exec_wide(s: &Spec, env: &Env) -> Report {
+    let mut rep = Report::default();
+    common::run_setup(s.subseed, s.start_s);
+    let mut rng = Rng::new(s.subseed ^ 0x71de);
+    let width = *rng.pick(&[1500usize, 4200, 9000]);
+    let mut model = crate::model::FsModel::default();
+    let dir = crate::model::default_entry(&mut rng, crate::model::Kind::Dir, s.start_s);
+    let _ = model.entries.insert(vec![b"wide".to_vec()], dir.clone());
+    for i in 0..width {
+        let d = format!("d{i:05}").into_bytes();
+        let _ = model.entries.insert(vec![b"wide".to_vec(), d.clone()], dir.clone());
+        let mut f = crate::model::default_entry(&mut rng, crate::model::Kind::File(std::sync::Arc::new(format!("content {i}").into_bytes())), s.start_s);
+        f.inode = 100_000 + i as u64;
+        let _ = model.entries.insert(vec![b"wide".to_vec(), d, b"f".to_vec()], f);
+    }
+    // default pack sizes: the point is the number of sub-trees in flight, not the number of packs
+    let mut cfg = variant_cfg(&mut rng, &s.chunker, s.version, 3);
+    cfg.datapack_size = None;
+    cfg.treepack_size = None;
+    cfg.compression = if cfg.version == 1 { cfg.compression } else { Some(0) };
+    let mut sim = Sim::new(s.subseed, cfg.clone(), &env.cpus, "c13-wide");
+    if let Cmd::Err(e) = sim.init() {
+        rep.sample = json!({"skipped": "configuration refused by init", "error": e});
+        rep.evaluations = 1;
+        return rep;
+    }
+    let plan = ReadPlan { frag: vec![0], eintr_every: 0, gate_reads_every: 0 };
+    let mut steps = vec![];
+    let mut judge = |rep: &mut Report, name: &str, r: Cmd<()>| -> bool {
+        steps.push(format!("{name}: {}", r.class().chars().take(40).collect::<String>()));
+        match r {
+            Cmd::Ok(()) => true,
+            r => {
+                rep.violation(format!("C13/wide-{name}-{}", r.class()), format!("{width} sub-directories: {}", r.detail()));
+                false
+            }
+        }
+    };
+    let r = sim.backup(&Mode::Free, &model, 1, &BackupOptions::default(), &plan, "c13-wide").map_unit();
+    let mut ok = judge(&mut rep, "backup", r);
+    if ok {
+        let (st, ky) = (sim.store.clone(), sim.key.clone());
+        let r = sim.run(&Mode::Free, move || crate::world::repo_open(&st, 2, &ky)?.check(rustic_core::CheckOptions::default()).map(|_| ()));
+        ok = judge(&mut rep, "check", r);
+    }
+    if ok {
+        let popts = PruneOptions::default().max_unused(rustic_core::LimitOption::Percentage(0)).max_repack(rustic_core::LimitOption::Unlimited).keep_delete(jiff::Span::new());
+        let r = sim.prune(&Mode::Free, 2, &popts);
+        ok = judge(&mut rep, "prune", r);
+    }
+    if ok {
+        let mut dst = Sim::new(s.subseed ^ 0xd57, cfg.clone(), &env.cpus, "c13-wide-dst");
+        if dst.init().is_ok() {
+            let (ss, sk, ds, dk) = (sim.store.clone(), sim.key.clone(), dst.store.clone(), dst.key.clone());
+            let r = dst.run(&Mode::Free, move || {
+                let src = crate::world::repo_open(&ss, 7, &sk)?.to_indexed()?;
+                let d = crate::world::repo_open(&ds, 1, &dk)?.to_indexed_ids()?;
+                let snaps = src.get_all_snapshots()?;
+                src.copy(&d, snaps.iter())
+            });
+            ok = judge(&mut rep, "copy", r);
+        }
+    }
+    if ok {
+        // the listing must show every entry (full read-back of thousands of files is left to C01's sizes)
+        if let Some(rec) = sim.snaps.values().next().cloned() {
+            let (st, ky) = (sim.store.clone(), sim.key.clone());
+            let want = model.entries.len();
+            let r = sim.run(&Mode::Free, move || {
+                let repo = crate::world::repo_open(&st, 3, &ky)?.to_indexed()?;
+                Ok(crate::readback::list_snapshot(&repo, &rec.snap).map(|v| v.len()))
+            });
+            match r {
+                Cmd::Ok(Ok(n)) if n == want => {}
+                Cmd::Ok(Ok(n)) => rep.violation("C13/wide:listing-incomplete", format!("{n} of {want} entries listed")),
+                Cmd::Ok(Err((w, e))) => rep.violation("C13/wide:listing-failed", format!("{w}: {e}")),
+                r => rep.violation(format!("C13/wide-ls-{}", r.class()), r.detail()),
+            }
+        }
+    }
+    sim.finish_report(&mut rep);
+    rep.fire("wide_directory_scenario", 1);
+    rep.evaluations = steps.len().max(1) as u64;
+    rep.nontrivial.push(hash64(&[b"wide", &(width as u64).to_le_bytes(), &s.subseed.to_le_bytes()]));
+    rep.trace_hash = hash64(&[b"wide", &files_digest(&sim.store.files()).to_le_bytes()]);
+    rep.sample = json!({"kind": "wide", "sub_directories": width, "steps": steps, "config": cfg.describe()});
+    rep
+}
+
 impl Prop for C13 {
     fn id(&self) -> &'static str {
         "C13"
@@ -81,6 +173,7 @@ impl Prop for C13 {
          (FIFO, random, starve-one-role, PCT), pariter pool size 1..3 (faked CPU count), pack-size limits from one blob per pack upward, compression; \
          backup kind: snapshot tree id and the set of (type,id) reachable from it must agree across executions; prune kind: the surviving snapshots' reachable sets must agree; \
          copy kind: two snapshots copied under the policy into a fresh repository with another key: the copies' tree ids and reachable sets must agree across executions; \
+         wide kind (1 run in 40/25): a directory with 1500-9000 distinct sub-directories, free-running backup, check, prune and copy must terminate and the snapshot must list completely; \
          every execution must terminate; every blob of every stored pack must be listed by an index file with the header's type/offset/length; every reachable blob indexed in an unmarked pack. \
          evaluations = executions; non-trivial = model has data and the executions produced >= 2 distinct gate traces; distinct = hash(model, chunker, trace set)"
     }
@@ -105,10 +198,10 @@ impl Prop for C13 {
         let spec = Spec {
             pool,
             subseed,
-            kind: match rng.usize(6) {
-                0..=2 => "backup".into(),
-                3 | 4 => "prune".into(),
-                _ => "copy".into(),
+            kind: match rng.usize(if tier == Tier::Quick { 40 } else { 25 }) {
+                // rarely: a very wide directory (thousands of distinct sub-trees at one level)
+                0 => "wide".into(),
+                x => ["backup", "backup", "backup", "prune", "prune", "copy"][x % 6].into(),
             },
             chunker,
             version: if rng.chance(1, 5) { 1 } else { 2 },
@@ -151,6 +244,9 @@ impl Prop for C13 {
         let mut m2 = m1.clone();
         let _ = edit_model(&mut Rng::new(s.model_seed ^ 2), &mut m2, &s.gen, s.start_s + 7200, 4);
 
+        if s.kind == "wide" {
+            return exec_wide(&s, env);
+        }
         let mut results: Vec<(String, BTreeSet<String>)> = vec![]; // (tree id(s), reachable set)
         let mut traces = BTreeSet::new();
         let mut descr = vec![];
